@@ -116,7 +116,10 @@ let () =
           incr mism;
           let diag = match List.nth evs d with
             | ESnap o -> let (sts, _) = sup_accept cfg fuel (take d evs) in
-              Printf.sprintf " snapdiag=%d" (int_of_nat (snap_diagnosis cfg sts o))
+              let dg = int_of_nat (snap_diagnosis cfg sts o) in
+              if dg = 5 then Printf.sprintf " snapdiag=5 census_impl=%d census_model_max=%d" (int_of_nat o.sn_gor)
+                  (int_of_nat (snap_census_max cfg sts o))
+              else Printf.sprintf " snapdiag=%d" dg
             | _ -> "" in
           Printf.printf "MISMATCH reject %s :: at=%d%s event=%s\n" !cur_hdr d diag (List.nth lines d);
           if Sys.getenv_opt "SUP_DEBUG" <> None then begin
